@@ -610,12 +610,127 @@ class Gen:
     def gen_header(self):
         return {'ty': 'header', 'depth': self.rng.choice([0, 1, 2]), 'name': self.rng.choice(['Section', 'Basic facts', 'x :: y', 'Über ∀'])}
 
+    # ------------------------------------------------------------ overloaded constant on the right-hand side at several types
+    MULTI_PATTERNS = {
+        'ov-first': ['ov', 'non'], 'ov-last': ['non', 'ov'], 'ov-first-of-three': ['ov', 'non', 'non2'],
+        'ov-middle': ['non', 'ov', 'non2'], 'ov-last-of-three': ['non', 'non2', 'ov'], 'ov-twice-around': ['ov', 'non', 'ov'],
+        'only-ov': ['ov'], 'only-non': ['non'], 'only-non-two': ['non', 'non2'], 'only-non-repeated': ['non', 'non'],
+    }
+    MULTI_SHAPES = {'binop': lambda U: S.funs(U, U, U), 'rel': lambda U: S.funs(U, U, BOOL), 'nullary': lambda U: U,
+                    'pred': lambda U: S.fun(U, BOOL), 'measure': lambda U: S.fun(U, NAT)}
+    EXISTING_SHAPE = {'plus': 'binop', 'minus': 'binop', 'times': 'binop', 'less': 'rel', 'less_eq': 'rel', 'zero': 'nullary', 'one': 'nullary'}
+    INFIX = {'plus': '+', 'minus': '-', 'times': '*', 'less': '<', 'less_eq': '<='}
+
+    def closed_of(self, U):
+        """closed text of type U (U without type variables, or a list / set of anything)"""
+        r = self.rng
+        if U == NAT:
+            return '(%s::nat)' % r.choice(['1', '2', '3', '7'])
+        if U == BOOL:
+            return r.choice(['true', 'false'])
+        if U[0] == 'tc' and U[1] == 'list':
+            return '([]::%s)' % ty_text(U, self.uni)
+        if U[0] == 'tc' and U[1] == 'set':
+            return '({}::%s)' % ty_text(U, self.uni)
+        if is_fun(U):
+            return '(%%q::%s. %s)' % (ty_text(U[2][0], self.uni), self.closed_of(U[2][1]))
+        return '(SOME q::%s. true)' % ty_text(U, self.uni)
+
+    def occurrence(self, name, shape, U, operands, prefix):
+        """text of an application of the overloaded constant `name` at instance U (result: U for binop/nullary, bool for
+        rel/pred, nat for measure)"""
+        r = self.rng
+        e = lambda: r.choice(operands) if operands else self.closed_of(U)
+        if shape == 'nullary':
+            if name in ('zero', 'one') and not prefix:
+                return '(%s::%s)' % ('0' if name == 'zero' else '1', ty_text(U, self.uni))
+            return '(%s::%s)' % (name, ty_text(U, self.uni))
+        if shape in ('pred', 'measure'):
+            return '(%s %s)' % (name, e())
+        a, b = e(), e()
+        if name in self.INFIX and not prefix:
+            return '(%s %s %s)' % (a, self.op(self.INFIX[name]), b)
+        return '(%s %s %s)' % (name, a, b)
+
+    def gen_multi(self, pattern_name=None, fresh=None):
+        """-> (family, [descriptions]): a definition of an overloaded constant at a fresh instance whose right side mentions
+        the constant at several instances, in the order given by the pattern (text order = order of first occurrence)"""
+        r = self.rng
+        self.uni = r.random() < 0.4
+        pattern_name = pattern_name or r.choice(sorted(self.MULTI_PATTERNS))
+        pattern = self.MULTI_PATTERNS[pattern_name]
+        fresh = r.random() < 0.5 if fresh is None else fresh
+        descs = []
+        if fresh:
+            shape = r.choice(['pred', 'pred', 'rel', 'measure', 'binop', 'nullary'])
+            name = self.fresh('ov')
+            self.tvars = [TA]
+            descs.append({'ty': 'def.ax', 'name': name, 'type': ty_text(self.MULTI_SHAPES[shape](TA), self.uni), 'overloaded': True,
+                          '_attack': [], '_family': 'def.ax'})
+            insts = [NAT, BOOL, lst(NAT), st(NAT), lst(TA), S.fun(NAT, NAT)]
+        else:
+            name = r.choice(sorted(self.EXISTING_SHAPE))
+            shape = self.EXISTING_SHAPE[name]
+            insts = [BOOL, lst(NAT), st(NAT), lst(TA), st(BOOL)]      # nat instances exist in the base theory
+        I = r.choice(insts)
+        head = lambda U: U[1] if U[0] == 'tc' else None
+        others = [U for U in [NAT, BOOL, lst(NAT), st(NAT), lst(BOOL), S.fun(NAT, BOOL)] if head(U) != head(I)]
+        r.shuffle(others)
+        J, J2 = others[0], others[1]
+        T = self.MULTI_SHAPES[shape](I)
+        self.tvars = list(S.type_vars(T))
+        nargs = {'binop': 2, 'rel': 2, 'nullary': 0, 'pred': 1, 'measure': 1}[shape]
+        pool = ['x', 'y', 'n', 'm', 'a', 'b', 's', 'p']
+        r.shuffle(pool)
+        names = pool[:nargs]
+        prefix = r.random() < 0.3
+        # an overlapping occurrence: at I itself, or (I polymorphic) at an instance of I
+        I_inst = S.tm_ty_subst(('var', 'v', _stv(I)), {'a': NAT})[2] if S.type_vars(I) and r.random() < 0.5 else I
+        occs = []
+        for k in pattern:
+            if k == 'ov':
+                ops = names if (I_inst == I and names) else []
+                occs.append((self.occurrence(name, shape, I_inst, ops, prefix), I_inst))
+            else:
+                U = J if k == 'non' else J2
+                occs.append((self.occurrence(name, shape, U, [], prefix), U))
+        res_of = {'binop': lambda U: U, 'nullary': lambda U: U, 'rel': lambda U: BOOL, 'pred': lambda U: BOOL, 'measure': lambda U: NAT}[shape]
+        R = res_of(I)
+
+        def cond(text, U):
+            V = res_of(U)
+            if V == BOOL:
+                return text if r.random() < 0.7 else '(%s(%s))' % (self.op('~'), text)
+            return '(%s = %s)' % (text, self.closed_of(V))
+        base = names[0] if (names and shape == 'binop') else self.closed_of(R)
+        base2 = names[-1] if (names and shape == 'binop') else self.closed_of(R)
+        style = r.choice(['if', 'if', 'conn']) if R == BOOL else 'if'
+        if style == 'conn':
+            rhs = cond(*occs[-1])
+            for text, U in reversed(occs[:-1]):
+                rhs = '(%s %s %s)' % (cond(text, U), self.op(r.choice(['&', '|', '-->'])), rhs)
+        else:
+            rhs = base
+            for text, U in reversed(occs):
+                rhs = '(if %s then %s else %s)' % (cond(text, U), rhs, base2)
+        lhs = ' '.join([name] + names)
+        eq = self.op('<-->') if R == BOOL and r.random() < 0.7 else '='
+        hostile = 'ov' in pattern
+        d = {'ty': 'def', 'name': name, 'type': ty_text(T, self.uni), 'prop': '%s %s %s' % (lhs, eq, rhs),
+             '_attack': ['selfmulti'] if hostile else [], '_family': 'def', '_multi': pattern_name}
+        if r.random() < 0.3:
+            d['attributes'] = r.sample(ATTRS, 1)
+        descs.append(d)
+        return 'def:overloaded:several-occurrences:%s' % ('fresh-constant' if fresh else 'library-constant'), descs
+
     # ------------------------------------------------------------ scenarios
     DEF_ATTACKS = ['self', 'tvar', 'nonvar', 'repeat', 'extra', 'head', 'noteq', 'swap']
 
     def scenario(self):
         """-> (family tag, [descriptions])"""
         r = self.rng
+        if r.random() < 0.12:
+            return self.gen_multi()
         x = r.random()
         if x < 0.16:
             return 'def:good', [self.gen_def() for _ in range(r.choice([1, 2]))]
